@@ -115,8 +115,16 @@ class Check:
             self.stats[stream]["none"] += 1
 
     def sample(self, s):
-        if len(self.samples) < 6:
+        """keep the first two cases and a reservoir sample of six more (so that the evidence shows typical, not only the smallest, cases)"""
+        self._seen_samples = getattr(self, "_seen_samples", 0) + 1
+        if len(self.samples) < 8:
             self.samples.append(s)
+            return
+        if not hasattr(self, "_srng"):
+            self._srng = random.Random(f"samples-{self.pid}-{self.seed}")
+        j = self._srng.randrange(self._seen_samples)
+        if j < 6:
+            self.samples[2 + j] = s
 
     # ------------------------------------------------------------ known findings
     def match_known(self, alg, case, fmt, kind):
